@@ -606,6 +606,9 @@ type noDial struct {
 	dump     []string
 }
 
+// maxSilentFailures: the largest number of failed attempts seen in a window without traffic and live link (evidence only).
+var maxSilentFailures atomic.Int64
+
 const (
 	noDialK       = 25 // failed dial attempts for X per window
 	noDialWindows = 3  // consecutive windows
@@ -617,29 +620,41 @@ const (
 // the code under test once per attempt) in each of noDialWindows consecutive
 // windows while NOT ONE unit of dial traffic (datagram resp. connection attempt)
 // went towards A in the harness' network, no link of L was alive (see
-// liveLinkAtL) and, at the end of every window, no goroutine was inside the
-// transport's per-address dialer. On the unchanged tree every attempt that is not
+// liveLinkAtL) at the start and at the end of any window and, at the end of
+// every window, no goroutine was inside the transport's per-address dialer. On the unchanged tree every attempt that is not
 // refused because of a live link either waits for an in-flight dialer or starts
 // one, which calls the dial function (>= 1 datagram / connection attempt).
 func (u *run) noDialDetector(ctx context.Context, res *noDial) func() bool {
 	have, windows := false, 0
 	var baseSent, baseFailed, firstFailed int64
-	reset := func() {
-		// window start: traffic first, failures second (at the end the other way round)
+	// (re)start: a window may only start at an observation point at which no link
+	// of L is alive (failed attempts made while a link held the address are
+	// legitimate and must not be counted). Order: traffic, liveness, failures -
+	// a link that comes alive later needs a handshake, i.e. traffic after baseSent.
+	restart := func() {
+		windows = 0
 		baseSent = u.fab.Sent()
-		baseFailed = u.dlog.failed.Load()
-		if !have || windows == 0 {
-			firstFailed = baseFailed
+		if u.liveLinkAtL(ctx) {
+			have = false
+			return
 		}
+		baseFailed = u.dlog.failed.Load()
+		firstFailed = baseFailed
 		have = true
 	}
 	return func() bool {
+		// window end: failures first, traffic second (at the start the other way round)
 		fNow := u.dlog.failed.Load()
 		sNow := u.fab.Sent()
 		if !have || sNow != baseSent || u.liveLinkAtL(ctx) {
-			windows = 0
-			reset()
+			restart()
 			return false
+		}
+		for {
+			m := maxSilentFailures.Load()
+			if fNow-baseFailed <= m || maxSilentFailures.CompareAndSwap(m, fNow-baseFailed) {
+				break
+			}
 		}
 		if fNow-baseFailed < noDialK {
 			return false
@@ -648,15 +663,13 @@ func (u *run) noDialDetector(ctx context.Context, res *noDial) func() bool {
 		all, _ := g5net.GoroutinesAll(u.label)
 		for _, b := range all {
 			if strings.Contains(b, "transport/common/quic.(*Dialer).Execute") && (strings.Contains(b, `"g5case":"`+u.label+`"`) || !strings.Contains(b, `"g5case":`)) {
-				windows = 0
-				reset()
+				restart()
 				return false
 			}
 		}
 		u.r.Count("no_dial_detector_windows", 1)
 		if u.fab.Sent() != baseSent || u.liveLinkAtL(ctx) {
-			windows = 0
-			reset()
+			restart()
 			return false
 		}
 		windows++
@@ -1248,7 +1261,7 @@ func runScenario(r *vf.Run, sc scenario, pool []*keys.Identity) {
 func TestCheck(t *testing.T) {
 	r := vf.Start(t, "C05", vf.FaultEnumeration)
 	defer r.Finish()
-	r.SetRule("scenario = (request kind in {Controller.DialPeerAddr, DialTptAddr directive, EstablishLinkWithPeer with a static peer map}) x (service sequence of address A over {X, impostor Y, nobody}, all sequences of length <= 3 without equal neighbours; thorough: plus 120 PRNG sequences of length 4-6) [+ variants in which a request for Y at A is satisfied first and X is requested while that link holds the address, + variants in which a first dial of A (unconstrained / requiring Y / requiring X, made through the controller resp. the transport's DialPeer) is held in flight by the harness' network while the request for X is made and released once the dial for X is parked behind it (goroutine state) with X resp. Y answering, + variants with a competing request for Y at the same address, + variants that repeat the request while the link to X is still up, + (hook tc.linkdialer.result) the link is lost while the link dialer is held between obtaining and recording its result]. Real transport controller + real pconn/quic transports over an in-memory datagram switch, resp. real conn (stream) transports over in-memory pipes, whose service table the harness rebinds between phases. A phase is left only when its observation point was reached (impostor completed handshakes / datagrams to A were dropped / link to X exists and the request returned); a scenario is non-trivial when all its phases reached it. Oracle (ground truth = the harness' service table): every success value of the request names X and appears only after X served A; while X serves A and a request is outstanding a link to X is eventually there -- refuted by a stuck state (no link to X, no goroutine in any dial routine on 5 consecutive observation points after the traffic counter towards A has been silent for 10), a watchdog expiry is only inconclusive.")
+	r.SetRule("scenario = (request kind in {Controller.DialPeerAddr, DialTptAddr directive, EstablishLinkWithPeer with a static peer map}) x (service sequence of address A over {X, impostor Y, nobody}, all sequences of length <= 3 without equal neighbours; thorough: plus 120 PRNG sequences of length 4-6) [+ variants in which a request for Y at A is satisfied first and X is requested while that link holds the address, + variants in which a first dial of A (unconstrained / requiring Y / requiring X, made through the controller resp. the transport's DialPeer) is held in flight by the harness' network while the request for X is made and released once the dial for X is parked behind it (goroutine state) with X resp. Y answering, + variants with a competing request for Y at the same address, + variants that repeat the request while the link to X is still up, + (hook tc.linkdialer.result) the link is lost while the link dialer is held between obtaining and recording its result, + variants in which every request spells the address differently from the remote address string its sessions report (a registered host name, another letter case, a trailing dot: the harness' networks resolve all of them to A), so that the link is dialed, lost and dialed again by the alias while X, the impostor or nobody serves it]. Real transport controller + real pconn/quic transports over an in-memory datagram switch, resp. real conn (stream) transports over in-memory pipes, whose service table the harness rebinds between phases. A phase is left only when its observation point was reached (impostor completed handshakes / datagrams to A were dropped / link to X exists and the request returned); a scenario is non-trivial when all its phases reached it. Oracle (ground truth = the harness' service table): every success value of the request names X and appears only after X served A; while X serves A and a request is outstanding a link to X is eventually there -- refuted by a stuck state (no link to X, no goroutine in any dial routine on 5 consecutive observation points after the traffic counter towards A has been silent for 10), or by retries that never reach the network (progress oracle in logical steps: 3 consecutive windows of 25 failed dial attempts each reported by the dialer for X while not one datagram / connection attempt went towards A in the harness' network, no link of L was alive at the start or the end of a window and no goroutine was inside the transport's per-address dialer at the end of a window); in phases where X does not serve A the same two detectors only end the phase; a watchdog expiry is only inconclusive.")
 	r.Assume("the link's reported remote peer is authentic (that is C03)")
 	r.Assume("goroutines of a scenario are found by an inherited pprof label; dial goroutines without label make the stuck detector abstain")
 
@@ -1407,4 +1420,6 @@ func TestCheck(t *testing.T) {
 		}(sc)
 	}
 	wg.Wait()
+	r.Extra("no_dial_detector_max_failed_attempts_seen_in_a_silent_window", maxSilentFailures.Load())
+	r.Extra("no_dial_detector_threshold_failed_attempts", noDialK*noDialWindows)
 }
